@@ -199,9 +199,9 @@ Proof.
 Qed.
 
 (* ---------- end ---------- *)
-Lemma sim_end c a out a' calls :
-  R c a -> astep a (OEnd out) = Some (a', calls) ->
-  exists c', cstep c (OEnd out) = Ok (c', calls) /\ R c' a'.
+Lemma sim_end c a out thr a' calls :
+  R c a -> astep a (OEnd out thr) = Some (a', calls) ->
+  exists c', cstep c (OEnd out thr) = Ok (c', calls) /\ R c' a'.
 Proof.
   intros HR Hs. cbn [astep cstep] in *.
   assert (HR' : R (set_fix c true) (mkA true (ahead a) (abody a) (blast a))).
